@@ -52,7 +52,7 @@ import random
 
 PID = "C16"
 LEVEL = "proof"
-LEAN_MODULES = ["AsynqModel.Theorems.C16"]
+LEAN_MODULES = ["AsynqModel.Theorems.C16", "AsynqModel.Theorems.C16b"]
 HEADLINE = [
     # the sharing structure of the ONE global step
     "AsynqModel.Threads.C16_gstep_simulates_local",
@@ -83,6 +83,11 @@ HEADLINE = [
     "AsynqModel.Threads.C16_spec_own_holds",
     "AsynqModel.Threads.C16_spec_holds_partial",
     "AsynqModel.Threads.C16_spec_fails_only_on_shared_objects",
+    # the observer is EXACT (Theorems/C16b.lean): it accepts recorded runs - of ANY origin, also of a changed library -
+    # exactly if the structural stage accepts and every thread's history equals its history alone
+    "AsynqModel.Threads.C16_spec_iff",
+    "AsynqModel.Threads.C16_spec_exact",
+    "AsynqModel.Threads.C16_spec_rejects",
 ]
 # hold by construction of the model / are instances of the theorems above in the functions the driver evaluates; the
 # content is the correspondence
